@@ -205,8 +205,13 @@ func (p *specParser) expr() (*SExpr, error) {
 				return nil, fmt.Errorf("binder name expected at %d in %q", t.pos, p.src)
 			}
 			b := Binder{Name: t.text, Type: "int"}
+			star := ""
+			if p.isOp("*") {
+				p.next()
+				star = "*"
+			}
 			if p.peek().kind == "id" {
-				b.Type = p.next().text
+				b.Type = star + p.next().text
 				// qualified or pointer types: pkg.T
 				for p.isOp(".") {
 					p.next()
